@@ -49,6 +49,9 @@ func runCheck(repo, verif, prop, tier string, t0 time.Time) (int, error) {
 		return 2, fmt.Errorf("propmap.json: %v", err)
 	}
 	pe := propmap[prop]
+	if pe != nil && pe.Effects != nil {
+		return runEffectCheck(repo, verif, prop, tier, pe, t0)
+	}
 	if pe == nil || len(pe.Functions) == 0 {
 		return 2, fmt.Errorf("property %s has no functions in propmap.json", prop)
 	}
@@ -378,4 +381,109 @@ func nonNil(s []string) []string {
 		return []string{}
 	}
 	return s
+}
+
+// runEffectCheck decides the effect/frame properties (C12, C18): see effects.go.
+func runEffectCheck(repo, verif, prop, tier string, pe *PropEntry, t0 time.Time) (int, error) {
+	var known KnownFile
+	_ = readJSON(filepath.Join(verif, "KNOWN_FINDINGS.json"), &known)
+	var floors map[string]int
+	_ = readJSON(filepath.Join(verif, "expected_obligations.json"), &floors)
+	prog, err := loadAll(repo, verif)
+	if err != nil {
+		return 2, err
+	}
+	var obls []effectObl
+	switch pe.EffectKind {
+	case "shared-state":
+		obls = prog.checkEffectsC12(pe.Effects)
+	case "determinism":
+		obls = prog.checkEffectsC18(pe.Effects)
+	default:
+		return 2, fmt.Errorf("unknown effect_kind %q", pe.EffectKind)
+	}
+	if len(obls) == 0 {
+		return 2, fmt.Errorf("vacuity: no effect obligations generated for %s", prop)
+	}
+	if fl, ok := floors[prop]; ok && len(obls) < fl {
+		return 2, fmt.Errorf("vacuity: %d obligations generated for %s, committed floor is %d", len(obls), prop, fl)
+	}
+	knownSet := map[string]KnownFinding{}
+	for _, k := range known.Findings {
+		if k.Property == prop {
+			knownSet[k.Obligation] = k
+		}
+	}
+	replayDir := filepath.Join(verif, "replays", prop)
+	os.RemoveAll(replayDir)
+	exit, violations, discharged := 0, 0, 0
+	knownHit := []string{}
+	perFunc := map[string]int{}
+	for _, o := range obls {
+		fn := o.Name
+		if i := strings.Index(fn, "#"); i >= 0 {
+			fn = fn[:i]
+		}
+		perFunc[fn]++
+		if o.OK {
+			discharged++
+			continue
+		}
+		if k, ok := knownSet[o.Name]; ok {
+			knownHit = append(knownHit, o.Name)
+			fmt.Printf("KNOWN-FINDING: property=%s %s %s\n", prop, o.Name, k.What)
+			continue
+		}
+		violations++
+		exit = 1
+		os.MkdirAll(replayDir, 0o755)
+		rp := filepath.Join(replayDir, sanitize(o.Name)+".json")
+		b, _ := json.MarshalIndent(map[string]string{"property": prop, "obligation": o.Name, "position": o.Pos, "detail": o.Detail,
+			"outcome": "no-model", "verifier_output": "effect checker: the forbidden pattern occurs at " + o.Pos + ": " + o.Detail}, "", " ")
+		os.WriteFile(rp, b, 0o644)
+		fmt.Printf("VIOLATION property=%s replay=%s no-failing-input-found\n", prop, rp)
+	}
+	var fnames []string
+	for n := range perFunc {
+		fnames = append(fnames, n)
+	}
+	sort.Strings(fnames)
+	var funcsCov []map[string]interface{}
+	for _, n := range fnames {
+		funcsCov = append(funcsCov, map[string]interface{}{"function": n, "obligations": perFunc[n]})
+	}
+	level := pe.Level
+	if level == "" {
+		level = "other"
+	}
+	tb := append([]string{}, pe.Trusted...)
+	tb = append(tb, "govc effect checker (syntactic, over go/types information of /repo's current source)")
+	coverage := map[string]interface{}{
+		"obligations": len(obls), "discharged": discharged,
+		"checker_cmd":              fmt.Sprintf("/verif/bin/govc check --property %s --tier %s", prop, tier),
+		"trusted_base":             tb,
+		"functions_under_contract": funcsCov,
+		"by_backend":               map[string]int{"govc-effect-checker (no SMT)": discharged},
+		"solver_time_s":            0,
+		"known_findings":           knownHit,
+		"not_covered":              nonNil(pe.NotCov),
+		"bounded":                  nonNil(pe.Bounded),
+		"explanation":              pe.Note,
+		"config":                   pe.Effects,
+		"evaluations":              len(obls), "distinct_nontrivial": len(obls),
+		"rule": "one named syntactic obligation per function and rule, generated from /repo's current source",
+		"vacuity": map[string]interface{}{"floor": floors[prop], "rule": "obligation count must reach the committed floor"},
+	}
+	ev := map[string]interface{}{
+		"property_id": prop, "tier": tier, "seed": 0, "level": level, "coverage": coverage,
+		"assumptions": nonNil(pe.Trusted), "wall_s": round3(time.Since(t0).Seconds()), "violations": violations,
+	}
+	os.MkdirAll(filepath.Join(verif, "evidence"), 0o755)
+	b, _ := json.MarshalIndent(ev, "", " ")
+	if err := os.WriteFile(filepath.Join(verif, "evidence", prop+".json"), b, 0o644); err != nil {
+		return 2, err
+	}
+	fmt.Printf("property=%s tier=%s obligations=%d discharged=%d known=%d violations=%d functions=%d wall=%.1fs\n",
+		prop, tier, len(obls), discharged, len(knownHit), violations, len(perFunc), time.Since(t0).Seconds())
+	return exit, nil
 }
